@@ -196,7 +196,9 @@ def t_addn(xs, w):
     for x in xs:
         if _c(x):
             c = (c + x) & M
-        elif x.op == "add":
+        elif x.op == "add" and len(x.args) <= 3 and len(terms) <= 6:
+            # shallow flattening only: unbounded flattening is exponential on
+            # recurrences such as the SHA-2 message schedule
             for y in x.args:
                 if _c(y):
                     c = (c + y) & M
